@@ -394,6 +394,11 @@ def run_stream(exe_cmd, cases, tmp, tag, env=None, timeout=600):
         if rc == 0:
             break
         last = max(got.keys()) if got else start
+        if "LeakSanitizer" in se and last == len(cases) - 1 and len(got.get(last, [])) == len(cases[last]):
+            # the process ran to its end and the leak report came at exit: find the case that leaks by bisection
+            leaker = _bisect_leak(exe_cmd, cases, start, len(cases), tmp, tag, e, timeout)
+            crashes[leaker] = "exit=%s %s" % (rc, crash_excerpt(se))
+            break
         crashes[last] = "exit=%s %s" % (rc, crash_excerpt(se))
         start = last + 1
         if rounds > 200:
@@ -412,6 +417,33 @@ def crash_excerpt(se):
     if not keep:
         keep = [se[-600:]]
     return " / ".join(keep[:14])
+
+
+def _bisect_leak(exe_cmd, cases, lo, hi, tmp, tag, env, timeout):
+    """cases[lo:hi] run in one process end with a LeakSanitizer report: narrow it down to one case"""
+    def leaks(a, b):
+        inp = os.path.join(tmp, "%s-leak-%d-%d.in" % (tag, a, b))
+        write_cases(inp, cases[a:b], base=a)
+        try:
+            with open(inp) as fin:
+                r = subprocess.run(exe_cmd, stdin=fin, stdout=subprocess.DEVNULL, stderr=subprocess.PIPE, text=True,
+                                   env=env, timeout=timeout, errors="replace")
+            return r.returncode != 0 and "LeakSanitizer" in r.stderr
+        except subprocess.TimeoutExpired:
+            return False
+        finally:
+            os.unlink(inp)
+    steps = 0
+    while hi - lo > 1 and steps < 40:
+        steps += 1
+        mid = (lo + hi) // 2
+        if leaks(lo, mid):
+            hi = mid
+        elif leaks(mid, hi):
+            lo = mid
+        else:
+            break       # needs both halves (state carried across cases): blame the last case of the range
+    return lo if hi - lo == 1 else hi - 1
 
 
 def split_l1(line):
